@@ -1,7 +1,10 @@
 package protocol
 
 import (
+	"time"
+
 	"github.com/enfein/mieru/v3/pkg/common"
+	"github.com/enfein/mieru/v3/pkg/congestion"
 )
 
 // H13.1 receive side of the UDP transport, one step from an arbitrary state:
@@ -56,5 +59,122 @@ func vH_C13_inputData_packet() {
 	}
 	if q > r0 && !(k >= 1 && vSeq(buffered[0]) == r0) && !(k >= 2 && vSeq(buffered[1]) == r0) {
 		vAssert(r1 == r0, "a segment beyond a gap does not advance the cumulative ack")
+	}
+}
+
+// ---- H13.2 / H13.3: one pass of the UDP output loop from an arbitrary state ----
+//
+// Every datagram the pass hands to the underlay - first transmissions from the
+// send queue, retransmissions from the send buffer, the stand-alone ack - is
+// stamped with unAckSeq == nextRecv (the cumulative in-order receive point,
+// never the highest or the buffered sequence number), and a retransmission
+// leaves payload, length, fragment marker, type, sequence number and session id
+// of the stored segment untouched.
+func vStubRTO(r *congestion.RTTStats) time.Duration {
+	d := time.Duration(vNondetI64("rto"))
+	vAssume(d > 0 && d <= 60*time.Second)
+	return d
+}
+func vStubCwnd(c *congestion.CubicSendAlgorithm) uint32 {
+	w := vNondetU32("cwnd")
+	vAssume(w <= 4096)
+	return w
+}
+func vStubCubicEvent(c *congestion.CubicSendAlgorithm) {}
+func vStubBackoff(d time.Duration, base float64, n float64) time.Duration {
+	return d
+}
+
+func vH_C13_output_packet() {
+	isClient := vNondetBool("isClient")
+	s := vNewSession(7, isClient, common.PacketTransport)
+	s.forwardStateTo(sessionAttached)
+	if vNondetBool("established") {
+		s.forwardStateTo(sessionEstablished)
+	}
+	r0 := vNondetU32("nextRecv")
+	vAssume(r0 < 0xfffffff0)
+	s.nextRecv.Store(r0)
+	ns := vNondetU32("nextSend")
+	vAssume(ns >= 4 && ns < 0xfffffff0)
+	s.nextSend.Store(ns)
+	s.ackOnDataRecv.Store(vNondetBool("ackOnDataRecv"))
+	s.remoteWindowSize.Store(uint32(vNondetU16("remoteWindow")))
+	s.nextRetransmissionTime.Store(vNondetI64("nextRetransmissionTime"))
+	s.lastTXTime.Store(vNondetI64("lastTXTime"))
+	// a segment received ahead of a gap may sit in the receive buffer
+	if vNondetBool("gap") {
+		b := vDataSeg("buf", !isClient, 7, 1)
+		vAssume(vSeq(b) > r0 && vSeq(b) < r0+8)
+		s.recvBuf.Insert(b)
+	}
+	// one unacknowledged segment in the send buffer, one new segment in the send queue
+	var old, fresh *segment
+	var oldPayload0, freshPayload0 byte
+	if vNondetBool("hasSendBuf") {
+		old = vDataSeg("sb", isClient, 7, 1)
+		old.metadata.(*dataAckStruct).seq = ns - 3
+		old.txCount = vNondetU8("sb.txCount")
+		old.ackCount = vNondetU8("sb.ackCount")
+		old.txTime = vNondetI64("sb.txTime")
+		old.txTimeout = time.Duration(vNondetI64("sb.txTimeout"))
+		vAssume(old.txTimeout >= 0 && old.txTimeout <= 60*time.Second && old.txTime >= 0)
+		if len(old.payload) > 0 {
+			oldPayload0 = old.payload[0]
+		}
+		s.sendBuf.Insert(old)
+	}
+	if vNondetBool("hasSendQueue") {
+		fresh = vDataSeg("sq", isClient, 7, 1)
+		fresh.metadata.(*dataAckStruct).seq = ns - 1
+		if len(fresh.payload) > 0 {
+			freshPayload0 = fresh.payload[0]
+		}
+		s.sendQueue.Insert(fresh)
+	}
+	var oldMD, freshMD dataAckStruct
+	var oldLen, freshLen int
+	if old != nil {
+		oldMD, oldLen = *old.metadata.(*dataAckStruct), len(old.payload)
+	}
+	if fresh != nil {
+		freshMD, freshLen = *fresh.metadata.(*dataAckStruct), len(fresh.payload)
+	}
+	vOutputs = nil
+	s.runOutputOncePacket()
+	vAssert(s.nextRecv.Load() == r0, "the output pass does not move the receive point")
+	vAssert(len(vOutputs) <= 3, "at most: one retransmission, one new segment, one ack")
+	for i := 0; i < 3; i++ {
+		if i >= len(vOutputs) {
+			break
+		}
+		o := vOutputs[i]
+		if das, ok := o.metadata.(*dataAckStruct); ok {
+			vAssert(das.unAckSeq == r0, "every emitted data/ack datagram carries unAckSeq == nextRecv (cumulative, never ahead of a gap)")
+			vAssert(das.sessionID == 7, "emitted datagrams belong to this session")
+			if o != old && o != fresh {
+				vAssert(isAckProtocol(das.Protocol()) && len(o.payload) == 0, "anything else emitted is the stand-alone ack")
+			}
+		}
+	}
+	if old != nil {
+		md := old.metadata.(*dataAckStruct)
+		vAssert(md.seq == oldMD.seq && md.protocol == oldMD.protocol && md.sessionID == oldMD.sessionID && md.fragment == oldMD.fragment &&
+			md.payloadLen == oldMD.payloadLen && len(old.payload) == oldLen && (oldLen == 0 || old.payload[0] == oldPayload0),
+			"a (re)transmitted segment keeps its type, sequence number, fragment marker, length and payload")
+	}
+	if fresh != nil {
+		md := fresh.metadata.(*dataAckStruct)
+		vAssert(md.seq == freshMD.seq && md.protocol == freshMD.protocol && md.sessionID == freshMD.sessionID && md.fragment == freshMD.fragment &&
+			md.payloadLen == freshMD.payloadLen && len(fresh.payload) == freshLen && (freshLen == 0 || fresh.payload[0] == freshPayload0),
+			"a first transmission keeps the content queued by Write")
+	}
+	// C02 H2.1: while a client UDP session is still opening, queued DATA is not transmitted
+	if isClient && s.isState(sessionAttached) && fresh != nil {
+		for i := 0; i < 3; i++ {
+			if i < len(vOutputs) {
+				vAssert(vOutputs[i] != fresh, "data is deferred until the open-session response arrived")
+			}
+		}
 	}
 }
